@@ -1197,6 +1197,16 @@ func (ex *Exec) simple(st *State, fr *Frame, in ssa.Instruction) {
 	case *ssa.MakeSlice:
 		id := st.fresh("mkslice", "Int")
 		ln := ex.val(st, fr, x.Len)
+		// make([]T, n) panics for n < 0 (and for absurd sizes; 2^47 elements is far beyond any real limit)
+		lg := "(and (>= " + ln.T + " 0) (< " + ln.T + " 140737488355328))"
+		ex.safety(st, fr, x, "makeslice", "len", lg)
+		st.assume(lg)
+		if x.Cap != nil {
+			cp := ex.val(st, fr, x.Cap)
+			cg := "(and (>= " + cp.T + " " + ln.T + ") (< " + cp.T + " 140737488355328))"
+			ex.safety(st, fr, x, "makeslice", "cap", cg)
+			st.assume(cg)
+		}
 		st.assume("(distinct " + id + " 0)")
 		st.assume("(= (slen " + id + ") " + ln.T + ")")
 		fr.vals[x] = ex.mkVal(x.Type(), id)
